@@ -208,9 +208,12 @@ def battery(world, snap, qseed, heavy=True, exporters=True, helpers=True, part=N
     # 2. commonancestors
     if helpers:
         add(("ca", (), outcome(lambda: _idx(world, util.commonancestors()))))
-        for i in range(n):
-            for j in range(n):
-                add(("ca", (i, j), outcome(lambda: _idx(world, util.commonancestors(nodes[i], nodes[j])))))
+        if n <= 16:
+            capairs = [(i, j) for i in range(n) for j in range(n)]
+        else:
+            capairs = [(rng.randrange(n), rng.randrange(n)) for _ in range(120)]
+        for i, j in capairs:
+            add(("ca", (i, j), outcome(lambda: _idx(world, util.commonancestors(nodes[i], nodes[j])))))
     for _ in range(min(6, n)):
         t = [rng.randrange(n) for _ in range(3)]
         if helpers:
@@ -253,9 +256,12 @@ def battery(world, snap, qseed, heavy=True, exporters=True, helpers=True, part=N
         return out
     # 5. Walker on all ordered pairs
     w = Walker()
-    for i in range(n):
-        for j in range(n):
-            add(("walk", i, j, outcome(lambda: _idx(world, w.walk(nodes[i], nodes[j])))))
+    if n <= 16:
+        pairs = [(i, j) for i in range(n) for j in range(n)]
+    else:
+        pairs = [(rng.randrange(n), rng.randrange(n)) for _ in range(120)]
+    for i, j in pairs:
+        add(("walk", i, j, outcome(lambda: _idx(world, w.walk(nodes[i], nodes[j])))))
     # 6. Resolver
     names = []
     for nd in nodes:
